@@ -1,36 +1,896 @@
-//! C12 probe skeleton (replaced below)
+//! C12 — pausing a track freezes its subtree; removal follows handle / persistence rules.
+//! A real `AudioManager<VBackend>` with a tree of sub-tracks (plain and spatial handles), index-coded
+//! static sounds, a counting probe effect, real manager clocks, and histories of pause / resume /
+//! resume_at / set_volume / handle drops; every callback is cut into internal chunks by the renderer.
 use crate::backend::*;
 use crate::util::*;
-use kira::track::TrackBuilder;
-use kira::Frame;
+use kira::clock::{ClockHandle, ClockSpeed, ClockTime};
+use kira::effect::Effect;
+use kira::info::Info;
+use kira::listener::ListenerHandle;
+use kira::sound::static_sound::{StaticSoundData, StaticSoundHandle, StaticSoundSettings};
+use kira::sound::PlaybackState;
+use kira::track::{SpatialTrackBuilder, SpatialTrackHandle, TrackBuilder, TrackHandle, TrackPlaybackState};
+use kira::{Decibels, Easing, Frame, StartTime, Tween};
+use std::collections::BTreeMap;
+use std::time::Duration;
 
-const SR: u32 = 1024;
+const SR: u32 = 1024; // dt = 2^-10 s exactly
+const U20: f32 = 1.0 / 1048576.0;
+const FRAME_NS_X2: u64 = 1_953_125; // two frames = 1953125 ns exactly
 
-pub fn run(_args: &Args) {
-	// probe 1: persisting track, already picked up; play a sound and drop the handle before the next callback
-	{
-		let mut m = simple_manager(SR, 8);
-		let mut t = m.add_sub_track(TrackBuilder::new().persist_until_sounds_finish(true)).unwrap();
-		let o = m.backend_mut().callback(4, 2);
-		eprintln!("cb0 {:?} n={}", &o[..2], m.num_sub_tracks());
-		let h = t.play(sound_from_frames(SR, vec![Frame::new(0.5, 0.5); 20])).unwrap();
-		drop(t);
-		for k in 0..4 {
-			let o = m.backend_mut().callback(4, 2);
-			eprintln!("probe1 cb{} out={:?} tracks={} sound={:?}", k + 1, &o[..2], m.num_sub_tracks(), h.state());
+#[derive(Clone, Debug, PartialEq)]
+enum Start {
+	Imm,
+	Del(u64),
+	Clk { clock: usize, ticks: u64, fr: f64 },
+}
+#[derive(Clone, Debug)]
+struct Tw {
+	start: Start,
+	dur_ns: u64,
+	easing: Easing,
+}
+#[derive(Clone, Debug)]
+enum Op {
+	AddTop { id: usize, persist: bool, fx: bool, spatial: bool },
+	AddSub { parent: usize, id: usize, persist: bool, fx: bool, spatial: bool },
+	Play { tr: usize, sid: usize, n: usize, start: usize, st: Start },
+	Pause { tr: usize, tw: Tw },
+	Resume { tr: usize, st: Start, tw: Tw },
+	Volume { tr: usize, db: f32, tw: Tw },
+	Drop { tr: usize },
+	DropSound { sid: usize },
+	ClockStart(usize),
+	ClockPause(usize),
+	ClockDrop(usize),
+}
+#[derive(Clone, Debug)]
+struct Cb {
+	ops: Vec<Op>,
+	frames: usize,
+}
+#[derive(Clone, Debug)]
+struct Scenario {
+	ibs: usize,
+	cbs: Vec<Cb>,
+}
+
+/// the probe effect: adds (frames processed so far) * 2^-20 to both channels of every frame
+struct Probe {
+	count: u32,
+}
+impl Effect for Probe {
+	fn process(&mut self, input: &mut [Frame], _dt: f64, _info: &Info) {
+		for f in input.iter_mut() {
+			self.count += 1;
+			let x = self.count as f32 * U20;
+			f.left += x;
+			f.right += x;
 		}
 	}
-	// probe 2: parent picked up; add a child, drop the parent's handle before the next callback; child handle alive
-	{
-		let mut m = simple_manager(SR, 8);
-		let mut t = m.add_sub_track(TrackBuilder::new()).unwrap();
-		m.backend_mut().callback(4, 2);
-		let mut c = t.add_sub_track(TrackBuilder::new()).unwrap();
-		let h = c.play(sound_from_frames(SR, vec![Frame::new(0.5, 0.5); 20])).unwrap();
-		drop(t);
-		for k in 0..4 {
-			let o = m.backend_mut().callback(4, 2);
-			eprintln!("probe2 cb{} out={:?} tracks={} child_state={:?} sound={:?}", k + 1, &o[..2], m.num_sub_tracks(), catch(|| c.state()), h.state());
+}
+
+enum H {
+	Plain(TrackHandle),
+	Spatial(SpatialTrackHandle),
+}
+impl H {
+	fn state(&self) -> TrackPlaybackState {
+		match self {
+			H::Plain(h) => h.state(),
+			H::Spatial(h) => h.state(),
 		}
 	}
+	fn num_sounds(&self) -> usize {
+		match self {
+			H::Plain(h) => h.num_sounds(),
+			H::Spatial(h) => h.num_sounds(),
+		}
+	}
+	fn num_sub_tracks(&self) -> usize {
+		match self {
+			H::Plain(h) => h.num_sub_tracks(),
+			H::Spatial(h) => h.num_sub_tracks(),
+		}
+	}
+	fn pause(&mut self, t: Tween) {
+		match self {
+			H::Plain(h) => h.pause(t),
+			H::Spatial(h) => h.pause(t),
+		}
+	}
+	fn resume_at(&mut self, st: StartTime, t: Tween) {
+		// `resume` is `resume_at(Immediate)`; call it through its own entry point when it applies
+		match (self, st) {
+			(H::Plain(h), StartTime::Immediate) => h.resume(t),
+			(H::Spatial(h), StartTime::Immediate) => h.resume(t),
+			(H::Plain(h), st) => h.resume_at(st, t),
+			(H::Spatial(h), st) => h.resume_at(st, t),
+		}
+	}
+	fn set_volume(&mut self, db: f32, t: Tween) {
+		match self {
+			H::Plain(h) => h.set_volume(Decibels(db), t),
+			H::Spatial(h) => h.set_volume(Decibels(db), t),
+		}
+	}
+	fn play(&mut self, d: StaticSoundData) -> StaticSoundHandle {
+		match self {
+			H::Plain(h) => h.play(d).unwrap(),
+			H::Spatial(h) => h.play(d).unwrap(),
+		}
+	}
+	fn add_sub(&mut self, b: TrackBuilder) -> H {
+		match self {
+			H::Plain(h) => H::Plain(h.add_sub_track(b).unwrap()),
+			H::Spatial(h) => H::Plain(h.add_sub_track(b).unwrap()),
+		}
+	}
+	fn add_spatial_sub(&mut self, l: &ListenerHandle, b: SpatialTrackBuilder) -> H {
+		match self {
+			H::Plain(h) => H::Spatial(h.add_spatial_sub_track(l, glam::Vec3::new(0.0, 0.0, 1.0), b).unwrap()),
+			H::Spatial(h) => H::Spatial(h.add_spatial_sub_track(l, glam::Vec3::new(0.0, 0.0, 1.0), b).unwrap()),
+		}
+	}
+}
+
+fn tstate_code(s: TrackPlaybackState) -> i128 {
+	match s {
+		TrackPlaybackState::Playing => 0,
+		TrackPlaybackState::Pausing => 1,
+		TrackPlaybackState::Paused => 2,
+		TrackPlaybackState::WaitingToResume => 3,
+		TrackPlaybackState::Resuming => 4,
+	}
+}
+fn sstate_code(s: PlaybackState) -> i128 {
+	match s {
+		PlaybackState::Playing => 0,
+		PlaybackState::Pausing => 1,
+		PlaybackState::Paused => 2,
+		PlaybackState::WaitingToResume => 3,
+		PlaybackState::Resuming => 4,
+		PlaybackState::Stopping => 5,
+		PlaybackState::Stopped => 6,
+	}
+}
+fn easing_code(e: Easing) -> (i128, i128) {
+	match e {
+		Easing::Linear => (0, 0),
+		Easing::InPowi(p) => (1, p as i128),
+		Easing::OutPowi(p) => (2, p as i128),
+		Easing::InOutPowi(p) => (3, p as i128),
+		_ => unreachable!(),
+	}
+}
+fn start_term(s: &Start) -> String {
+	match s {
+		Start::Imm => "SImm".into(),
+		Start::Del(ns) => format!("(SDel {})", ns),
+		Start::Clk { clock, ticks, fr } => format!("(SClk {} {} {})", clock, ticks, f64_bits_z(*fr)),
+	}
+}
+fn tw_term(t: &Tw) -> String {
+	let (ek, ep) = easing_code(t.easing);
+	format!("({}, {}, {}, {})", start_term(&t.start), t.dur_ns, ek, z(ep))
+}
+fn frame_code(sid: usize, idx: usize) -> f32 {
+	(((sid + 1) * 256 + idx + 1) as f32) * U20
+}
+fn coded_sound(sid: usize, n: usize, start: usize, st: StartTime) -> StaticSoundData {
+	let frames: Vec<Frame> = (0..n).map(|i| Frame::new(frame_code(sid, i), frame_code(sid, i))).collect();
+	StaticSoundData {
+		sample_rate: SR,
+		frames: std::sync::Arc::from(frames),
+		settings: StaticSoundSettings::new().start_position(kira::sound::PlaybackPosition::Samples(start)).start_time(st),
+		slice: None,
+	}
+}
+
+/// what the harness knows about one clock without asking it: 64 ticks per second at 1024 Hz = one tick per 16 frames
+#[derive(Clone, Copy, Debug)]
+struct ClockMirror {
+	dropped: bool,
+	present: bool,
+	want_ticking: bool,
+	ticking: bool,
+	started: bool,
+	sixteenths: u64,
+}
+impl ClockMirror {
+	fn info(&self) -> (bool, bool, u64, f64) {
+		(self.present, self.ticking, self.sixteenths / 16, (self.sixteenths % 16) as f64 / 16.0)
+	}
+}
+
+#[derive(Clone, Debug, Default)]
+struct CbObs {
+	mgr_tracks: usize,
+	/// live track handles: id -> (state or panic code, num_sounds, num_sub_tracks)
+	tracks: BTreeMap<usize, (Result<TrackPlaybackState, i128>, usize, usize)>,
+	/// live sound handles: sid -> (state, position in frames)
+	sounds: BTreeMap<usize, (PlaybackState, i128)>,
+	out: Vec<f32>,
+	chunk_clocks: Vec<(usize, Vec<(bool, bool, u64, f64)>)>,
+}
+struct Trace {
+	obs: Vec<i128>,
+	tab: Vec<(u32, u32, u32)>,
+	per_cb: Vec<CbObs>,
+	panicked: Option<i128>,
+	clock_mirror_ok: bool,
+}
+
+fn mk_start(clocks: &[Option<ClockHandle>], ids: &[kira::clock::ClockId], s: &Start) -> StartTime {
+	let _ = clocks;
+	match s {
+		Start::Imm => StartTime::Immediate,
+		Start::Del(ns) => StartTime::Delayed(Duration::from_nanos(*ns)),
+		Start::Clk { clock, ticks, fr } => StartTime::ClockTime(ClockTime { clock: ids[*clock], ticks: *ticks, fraction: *fr }),
+	}
+}
+
+fn run_scenario(sc: &Scenario) -> Trace {
+	let _ = kira::verif::take_powf32_log();
+	let mut per_cb: Vec<CbObs> = vec![];
+	let mut obs: Vec<i128> = vec![];
+	let mut clock_mirror_ok = true;
+	let r = catch(|| {
+		let mut m = simple_manager(SR, sc.ibs);
+		let listener = m.add_listener(glam::Vec3::ZERO, glam::Quat::IDENTITY).unwrap();
+		let mut clocks: Vec<Option<ClockHandle>> = (0..2).map(|_| Some(m.add_clock(ClockSpeed::TicksPerSecond(64.0)).unwrap())).collect();
+		let ids: Vec<_> = clocks.iter().map(|c| c.as_ref().unwrap().id()).collect();
+		let mut cm = [ClockMirror { dropped: false, present: false, want_ticking: false, ticking: false, started: false, sixteenths: 0 }; 2];
+		let mut tracks: BTreeMap<usize, H> = BTreeMap::new();
+		let mut sounds: BTreeMap<usize, StaticSoundHandle> = BTreeMap::new();
+		let mk_tw = |ids: &[kira::clock::ClockId], t: &Tw| Tween { start_time: mk_start(&[], ids, &t.start), duration: Duration::from_nanos(t.dur_ns), easing: t.easing };
+		for cb in &sc.cbs {
+			for op in &cb.ops {
+				match op {
+					Op::AddTop { id, persist, fx, spatial } => {
+						let h = if *spatial {
+							let mut b = SpatialTrackBuilder::new().attenuation_function(None).spatialization_strength(0.0).persist_until_sounds_finish(*persist);
+							if *fx {
+								b.add_built_effect(Box::new(Probe { count: 0 }));
+							}
+							H::Spatial(m.add_spatial_sub_track(&listener, glam::Vec3::new(0.0, 0.0, 1.0), b).unwrap())
+						} else {
+							let mut b = TrackBuilder::new().persist_until_sounds_finish(*persist);
+							if *fx {
+								b.add_built_effect(Box::new(Probe { count: 0 }));
+							}
+							H::Plain(m.add_sub_track(b).unwrap())
+						};
+						tracks.insert(*id, h);
+					}
+					Op::AddSub { parent, id, persist, fx, spatial } => {
+						let p = tracks.get_mut(parent).unwrap();
+						let h = if *spatial {
+							let mut b = SpatialTrackBuilder::new().attenuation_function(None).spatialization_strength(0.0).persist_until_sounds_finish(*persist);
+							if *fx {
+								b.add_built_effect(Box::new(Probe { count: 0 }));
+							}
+							p.add_spatial_sub(&listener, b)
+						} else {
+							let mut b = TrackBuilder::new().persist_until_sounds_finish(*persist);
+							if *fx {
+								b.add_built_effect(Box::new(Probe { count: 0 }));
+							}
+							p.add_sub(b)
+						};
+						tracks.insert(*id, h);
+					}
+					Op::Play { tr, sid, n, start, st } => {
+						let d = coded_sound(*sid, *n, *start, mk_start(&[], &ids, st));
+						let h = tracks.get_mut(tr).unwrap().play(d);
+						sounds.insert(*sid, h);
+					}
+					Op::Pause { tr, tw } => tracks.get_mut(tr).unwrap().pause(mk_tw(&ids, tw)),
+					Op::Resume { tr, st, tw } => tracks.get_mut(tr).unwrap().resume_at(mk_start(&[], &ids, st), mk_tw(&ids, tw)),
+					Op::Volume { tr, db, tw } => tracks.get_mut(tr).unwrap().set_volume(*db, mk_tw(&ids, tw)),
+					Op::Drop { tr } => {
+						tracks.remove(tr);
+					}
+					Op::DropSound { sid } => {
+						sounds.remove(sid);
+					}
+					Op::ClockStart(c) => {
+						if let Some(h) = clocks[*c].as_mut() {
+							h.start();
+							cm[*c].want_ticking = true;
+						}
+					}
+					Op::ClockPause(c) => {
+						if let Some(h) = clocks[*c].as_mut() {
+							h.pause();
+							cm[*c].want_ticking = false;
+						}
+					}
+					Op::ClockDrop(c) => {
+						clocks[*c] = None;
+						cm[*c].dropped = true;
+					}
+				}
+			}
+			// Renderer::on_start_processing: clocks marked for removal go, new ones arrive, set_ticking is read
+			m.backend_mut().r().on_start_processing();
+			for c in 0..2 {
+				cm[c].present = !cm[c].dropped;
+				cm[c].ticking = cm[c].want_ticking;
+				// the shared time was just refreshed from the clock's state: compare with the mirror
+				if let Some(h) = &clocks[c] {
+					let t = h.time();
+					let (_, _, tk, fr) = cm[c].info();
+					let (etk, efr) = if cm[c].started { (tk, fr) } else { (0, 0.0) };
+					if t.ticks != etk || t.fraction.to_bits() != efr.to_bits() || h.ticking() != cm[c].ticking {
+						clock_mirror_ok = false;
+					}
+				}
+			}
+			let mut o = CbObs::default();
+			// Renderer::process, chunk by chunk exactly as it cuts the buffer
+			let mut left = cb.frames;
+			let mut buf = vec![f32::from_bits(0x7FC0_1234); cb.frames * 2];
+			m.backend_mut().r().process(&mut buf, 2);
+			while left > 0 {
+				let n = left.min(sc.ibs);
+				for c in 0..2 {
+					if cm[c].present && cm[c].ticking {
+						cm[c].started = true;
+						cm[c].sixteenths += n as u64;
+					}
+				}
+				o.chunk_clocks.push((n, cm.iter().map(|c| if c.started { c.info() } else { (c.present, c.ticking, 0, 0.0) }).collect()));
+				left -= n;
+			}
+			for f in buf.chunks(2) {
+				o.out.push(if f[0].to_bits() == f[1].to_bits() { f[0] } else { f32::NAN });
+			}
+			o.mgr_tracks = m.num_sub_tracks();
+			for (id, h) in &tracks {
+				let st = match catch(|| h.state()) {
+					Outcome::Ok(s) => Ok(s),
+					Outcome::Panic(c) => Err(1000 + c),
+					Outcome::Hang => Err(2000),
+				};
+				o.tracks.insert(*id, (st, h.num_sounds(), h.num_sub_tracks()));
+			}
+			for (sid, h) in &sounds {
+				o.sounds.insert(*sid, (h.state(), (h.position() * SR as f64) as i128));
+			}
+			// flatten in the model's order
+			obs.push(o.mgr_tracks as i128);
+			for (_, (st, ns, nt)) in &o.tracks {
+				obs.push(match st {
+					Ok(s) => tstate_code(*s),
+					Err(c) => *c,
+				});
+				obs.push(*ns as i128);
+				obs.push(*nt as i128);
+			}
+			for (_, (st, pos)) in &o.sounds {
+				obs.push(sstate_code(*st));
+				obs.push(*pos);
+			}
+			obs.extend(o.out.iter().map(|x| obs32(*x)));
+			per_cb.push(o);
+		}
+	});
+	let tab = kira::verif::take_powf32_log();
+	let panicked = match r {
+		Outcome::Ok(()) => None,
+		Outcome::Panic(c) => Some(1000 + c),
+		Outcome::Hang => Some(2000),
+	};
+	if let Some(c) = panicked {
+		obs = vec![c];
+	}
+	Trace { obs, tab, per_cb, panicked, clock_mirror_ok }
+}
+
+fn term(sc: &Scenario, tr: &Trace) -> String {
+	let mut t: Vec<(u32, u32, u32)> = tr.tab.clone();
+	t.sort();
+	t.dedup();
+	let mut cbs = vec![];
+	for (k, cb) in sc.cbs.iter().enumerate() {
+		let mut ops = vec![];
+		for op in &cb.ops {
+			match op {
+				Op::AddTop { id, persist, fx, .. } => ops.push(format!("RAddTop {} {} {}", id, *persist as u8, *fx as u8)),
+				Op::AddSub { parent, id, persist, fx, .. } => ops.push(format!("RAddSub {} {} {} {}", parent, id, *persist as u8, *fx as u8)),
+				Op::Play { tr, sid, n, start, st } => ops.push(format!("RPlay {} {} {} {} {}", tr, sid, n, start, start_term(st))),
+				Op::Pause { tr, tw } => ops.push(format!("RPause {} {}", tr, tw_term(tw))),
+				Op::Resume { tr, st, tw } => ops.push(format!("RResume {} {} {}", tr, start_term(st), tw_term(tw))),
+				Op::Volume { tr, db, tw } => ops.push(format!("RVolume {} {} {}", tr, f32_bits_z(*db), tw_term(tw))),
+				Op::Drop { tr } => ops.push(format!("RDrop {}", tr)),
+				Op::DropSound { sid } => ops.push(format!("RDropSound {}", sid)),
+				Op::ClockStart(_) | Op::ClockPause(_) | Op::ClockDrop(_) => {}
+			}
+		}
+		let chunks = match tr.per_cb.get(k) {
+			Some(o) => o
+				.chunk_clocks
+				.iter()
+				.map(|(n, cl)| format!("({}, [{}])", n, cl.iter().map(|(p, t, k, f)| format!("({}, {}, {}, {})", *p as u8, *t as u8, k, f64_bits_z(*f))).collect::<Vec<_>>().join("; ")))
+				.collect::<Vec<_>>()
+				.join("; "),
+			None => String::new(),
+		};
+		cbs.push(format!("RCb [{}] [{}]", ops.join("; "), chunks));
+	}
+	format!("CTree {} [{}] [{}]", f64_bits_z(1.0 / SR as f64), cbs.join("; "), t.iter().map(|(a, b, c)| format!("({}, {}, {})", a, b, c)).collect::<Vec<_>>().join("; "))
+}
+
+// ---------------------------------------------------------------------------------------------
+// the harness's own view of the tree (a Rust mirror of the removal rule and of "frozen")
+#[derive(Clone, Debug)]
+struct TNode {
+	parent: Option<usize>,
+	persist: bool,
+	handle: bool,
+	picked: bool,
+	alive: bool,
+	/// sounds in the arena / still queued
+	arena: Vec<usize>,
+	queued: Vec<usize>,
+	cmd_this_cb: bool,
+}
+struct Mirror {
+	nodes: BTreeMap<usize, TNode>,
+	sound_track: BTreeMap<usize, usize>,
+	sound_finished: BTreeMap<usize, bool>,
+}
+impl Mirror {
+	fn children(&self, p: Option<usize>) -> Vec<usize> {
+		self.nodes.iter().filter(|(_, n)| n.alive && n.parent == p).map(|(i, _)| *i).collect()
+	}
+	/// Track::should_be_removed as the property states it
+	fn removable(&self, id: usize) -> bool {
+		let n = &self.nodes[&id];
+		for c in self.children(Some(id)) {
+			if !self.nodes[&c].picked || !self.removable(c) {
+				return false;
+			}
+		}
+		if n.persist {
+			!n.handle && n.arena.is_empty() && n.queued.is_empty()
+		} else {
+			!n.handle
+		}
+	}
+	fn kill(&mut self, id: usize) {
+		for c in self.children(Some(id)) {
+			self.kill(c);
+		}
+		self.nodes.get_mut(&id).unwrap().alive = false;
+	}
+	/// on_start_processing of parent `p`'s arena (None = mixer)
+	fn on_start(&mut self, p: Option<usize>) {
+		for c in self.children(p) {
+			if self.nodes[&c].picked && self.removable(c) {
+				self.kill(c);
+			}
+		}
+		for c in self.children(p) {
+			// the track's own on_start_processing: finished sounds leave, queued ones arrive
+			let fin = self.sound_finished.clone();
+			let n = self.nodes.get_mut(&c).unwrap();
+			n.picked = true;
+			n.arena.retain(|s| !fin.get(s).copied().unwrap_or(false));
+			let q = std::mem::take(&mut n.queued);
+			n.arena.extend(q);
+			self.on_start(Some(c));
+		}
+	}
+	fn ancestors_and_self(&self, id: usize) -> Vec<usize> {
+		let mut v = vec![id];
+		let mut cur = id;
+		while let Some(p) = self.nodes[&cur].parent {
+			v.push(p);
+			cur = p;
+		}
+		v
+	}
+}
+
+fn non_advancing(s: &Result<TrackPlaybackState, i128>) -> bool {
+	matches!(s, Ok(TrackPlaybackState::Paused) | Ok(TrackPlaybackState::WaitingToResume))
+}
+
+/// property monitors on the implementation's trace
+fn monitors(s: &mut Session, desc: &str, sc: &Scenario, tr: &Trace, pure: bool) {
+	if let Some(c) = tr.panicked {
+		s.fail(desc.to_string(), format!("panic (code {c}) while driving the manager"), None);
+		return;
+	}
+	if !tr.clock_mirror_ok {
+		s.fail(desc.to_string(), "harness clock mirror disagrees with ClockHandle::time()/ticking()".into(), None);
+	}
+	let mut mi = Mirror { nodes: BTreeMap::new(), sound_track: BTreeMap::new(), sound_finished: BTreeMap::new() };
+	let mut sound_dropped: BTreeMap<usize, bool> = BTreeMap::new();
+	let mut prev: Option<&CbObs> = None;
+	// frozen-through-callback flags of the previous callback, to compare positions one callback later
+	let mut frozen_prev: BTreeMap<usize, bool> = BTreeMap::new();
+	let mut removed_prev: BTreeMap<usize, bool> = BTreeMap::new();
+	for (k, cb) in sc.cbs.iter().enumerate() {
+		let o = &tr.per_cb[k];
+		for n in mi.nodes.values_mut() {
+			n.cmd_this_cb = false;
+		}
+		for op in &cb.ops {
+			match op {
+				Op::AddTop { id, persist, .. } => {
+					mi.nodes.insert(*id, TNode { parent: None, persist: *persist, handle: true, picked: false, alive: true, arena: vec![], queued: vec![], cmd_this_cb: false });
+				}
+				Op::AddSub { parent, id, persist, .. } => {
+					mi.nodes.insert(*id, TNode { parent: Some(*parent), persist: *persist, handle: true, picked: false, alive: true, arena: vec![], queued: vec![], cmd_this_cb: false });
+				}
+				Op::Play { tr, sid, .. } => {
+					mi.nodes.get_mut(tr).unwrap().queued.push(*sid);
+					mi.sound_track.insert(*sid, *tr);
+					mi.sound_finished.insert(*sid, false);
+					sound_dropped.insert(*sid, false);
+				}
+				Op::Pause { tr, .. } | Op::Resume { tr, .. } => mi.nodes.get_mut(tr).unwrap().cmd_this_cb = true,
+				Op::Drop { tr } => mi.nodes.get_mut(tr).unwrap().handle = false,
+				Op::DropSound { sid } => {
+					sound_dropped.insert(*sid, true);
+				}
+				_ => {}
+			}
+		}
+		// a dropped sound handle can no longer tell whether the sound finished: the removal mirror is then blind
+		let blind = mi.nodes.values().any(|n| n.alive && n.persist && n.arena.iter().chain(n.queued.iter()).any(|s| sound_dropped[s]));
+		let alive_before: Vec<usize> = mi.nodes.iter().filter(|(_, n)| n.alive).map(|(i, _)| *i).collect();
+		mi.on_start(None);
+		// --- state() total: never panics, one of five
+		for (id, (st, _, _)) in &o.tracks {
+			if let Err(c) = st {
+				s.fail(desc.to_string(), format!("callback {k}: TrackHandle::state() of track {id} panicked (code {c})"), None);
+			}
+		}
+		if !blind {
+			// --- never removed while its own or a descendant's handle is alive
+			for (id, n) in &mi.nodes {
+				if n.handle && !n.alive {
+					s.fail(desc.to_string(), format!("callback {k}: harness mirror removed track {id} whose handle is alive (mirror bug)"), None);
+				}
+			}
+			// --- removal timing and the persistence rule, wherever a count is observable
+			let want_top = mi.children(None).len();
+			if o.mgr_tracks != want_top {
+				s.fail(desc.to_string(), format!("callback {k}: manager.num_sub_tracks() = {} but the removal rule leaves {want_top} top-level tracks", o.mgr_tracks), None);
+			}
+			for (id, (_, ns, nt)) in &o.tracks {
+				let want = mi.children(Some(*id)).len();
+				if *nt != want {
+					s.fail(desc.to_string(), format!("callback {k}: track {id}.num_sub_tracks() = {nt} but the removal rule leaves {want}"), None);
+				}
+				let n = &mi.nodes[id];
+				let want_s = n.arena.len() + n.queued.len();
+				let tainted = n.arena.iter().chain(n.queued.iter()).any(|x| sound_dropped[x]);
+				if !tainted && *ns != want_s {
+					s.fail(desc.to_string(), format!("callback {k}: track {id}.num_sounds() = {ns}, expected {want_s} (finished sounds leave at the next callback)"), None);
+				}
+			}
+		}
+		// --- frozen subtree: a track that was not advancing before this callback, is not advancing after it and got no
+		//     pause/resume command in between was frozen through the whole callback
+		let mut frozen: BTreeMap<usize, bool> = BTreeMap::new();
+		for (id, n) in &mi.nodes {
+			let f = n.alive
+				&& !n.cmd_this_cb
+				&& prev.map(|p| p.tracks.get(id).map(|x| non_advancing(&x.0)).unwrap_or(false)).unwrap_or(false)
+				&& o.tracks.get(id).map(|x| non_advancing(&x.0)).unwrap_or(false);
+			frozen.insert(*id, f);
+		}
+		let under_frozen = |fr: &BTreeMap<usize, bool>, t: usize| mi.ancestors_and_self(t).iter().any(|a| fr.get(a).copied().unwrap_or(false));
+		// output: exact zeros when every top-level track is frozen (or there is none)
+		let tops = mi.children(None);
+		if tops.iter().all(|t| frozen[t]) && o.out.iter().any(|x| x.to_bits() != 0) {
+			s.fail(desc.to_string(), format!("callback {k}: every top-level track is paused / waiting, yet the output is not exact zeros: {:?}", o.out), None);
+		}
+		if o.out.iter().any(|x| x.is_nan()) {
+			s.fail(desc.to_string(), format!("callback {k}: NaN or differing channels in the output"), None);
+		}
+		// positions: the position reported in callback k is the frame heard after callback k-1; so a sound frozen (or
+		// removed) through callback k-1 reports the same position in callbacks k-1 and k
+		if let Some(p) = prev {
+			for (sid, (_, pos)) in &o.sounds {
+				if let Some((_, ppos)) = p.sounds.get(sid) {
+					let t = mi.sound_track[sid];
+					if frozen_prev.get(&t).is_some() && under_frozen(&frozen_prev, t) && pos != ppos {
+						s.fail(desc.to_string(), format!("callback {k}: sound {sid} moved from frame {ppos} to {pos} although track {t} or an ancestor was paused through callback {}", k - 1), None);
+					}
+					if removed_prev.get(&t).copied().unwrap_or(false) && pos != ppos {
+						s.fail(desc.to_string(), format!("callback {k}: sound {sid} moved from frame {ppos} to {pos} after its track {t} was removed"), None);
+					}
+					if pos < ppos || (*pos - *ppos) as usize > sc.cbs[k - 1].frames {
+						s.fail(desc.to_string(), format!("callback {k}: sound {sid} position went from {ppos} to {pos} in a callback of {} frames", sc.cbs[k - 1].frames), None);
+					}
+				}
+			}
+		}
+		// removed tracks are silent: if nothing is left, the output is exact zeros
+		if !blind && tops.is_empty() && o.out.iter().any(|x| x.to_bits() != 0) {
+			s.fail(desc.to_string(), format!("callback {k}: no track is left, yet the output is not exact zeros"), None);
+		}
+		for (sid, (st, _)) in &o.sounds {
+			if *st == PlaybackState::Stopped {
+				mi.sound_finished.insert(*sid, true);
+			}
+		}
+		frozen_prev = frozen;
+		removed_prev = alive_before.iter().map(|i| (*i, !mi.nodes[i].alive)).collect();
+		for (i, n) in &mi.nodes {
+			if !n.alive {
+				removed_prev.insert(*i, true);
+			}
+		}
+		prev = Some(o);
+	}
+	// --- resuming continues from exactly the frame where the sound froze (one sound, unit gains, 1-frame chunks):
+	//     the non-zero output frames are source frames in increasing order without repetition; a gap of one frame is
+	//     allowed once per resume_at with a delayed / clock start time (the chunk in which the start time arrives is
+	//     rendered at the fade-in's starting gain, silence, because the fade tween only starts with the next update)
+	if pure {
+		let mut next = 0usize;
+		let mut sid0 = None;
+		let mut n0 = 0;
+		let mut skips = 0usize;
+		for cb in &sc.cbs {
+			for op in &cb.ops {
+				if let Op::Play { sid, n, .. } = op {
+					sid0 = Some(*sid);
+					n0 = *n;
+				}
+				if let Op::Resume { st, .. } = op {
+					if *st != Start::Imm {
+						skips += 1;
+					}
+				}
+			}
+		}
+		if let Some(sid) = sid0 {
+			for (k, o) in tr.per_cb.iter().enumerate() {
+				for x in &o.out {
+					if x.to_bits() == 0 {
+						continue;
+					}
+					while skips > 0 && next + 1 < n0 && x.to_bits() != frame_code(sid, next).to_bits() && x.to_bits() == frame_code(sid, next + 1).to_bits() {
+						skips -= 1;
+						next += 1;
+					}
+					if next >= n0 || x.to_bits() != frame_code(sid, next).to_bits() {
+						s.fail(desc.to_string(), format!("callback {k}: heard {x:?} where source frame {next} = {:?} (or silence) was due: playback did not continue from the frame where it froze", frame_code(sid, next.min(254))), None);
+						return;
+					}
+					next += 1;
+				}
+			}
+		}
+	}
+}
+
+// ---------------------------------------------------------------------------------------------
+// generators
+fn gen_easing(r: &mut Rng) -> Easing {
+	match r.below(6) {
+		0 => Easing::InPowi(r.range(1, 3) as i32),
+		1 => Easing::OutPowi(r.range(1, 3) as i32),
+		2 => Easing::InOutPowi(r.range(1, 2) as i32),
+		_ => Easing::Linear,
+	}
+}
+fn gen_start(r: &mut Rng) -> Start {
+	match r.below(8) {
+		0 => Start::Del(r.below(12) * 976_562 + r.below(2) * 500),
+		1 => Start::Del((r.below(6) + 1) * FRAME_NS_X2),
+		2 | 3 | 4 => Start::Clk { clock: r.below(2) as usize, ticks: r.below(3), fr: *r.pick(&[0.0, 0.25, 0.5]) },
+		_ => Start::Imm,
+	}
+}
+fn gen_tw(r: &mut Rng, allow_start: bool) -> Tw {
+	let dur_ns = match r.below(6) {
+		0 | 1 => 0,
+		2 => r.below(900_000),
+		3 => (r.below(6) + 1) * FRAME_NS_X2,
+		4 => (r.below(10) + 1) * 976_562 + 500,
+		_ => r.below(12_000_000) + 1,
+	};
+	Tw { start: if allow_start && r.chance(1, 5) { gen_start(r) } else { Start::Imm }, dur_ns, easing: gen_easing(r) }
+}
+fn zero_tw() -> Tw {
+	Tw { start: Start::Imm, dur_ns: 0, easing: Easing::Linear }
+}
+
+struct GenState {
+	next_id: usize,
+	next_sid: usize,
+	/// id -> (depth, handle alive)
+	tracks: BTreeMap<usize, (usize, bool)>,
+	sounds: Vec<(usize, bool)>,
+	clock_alive: [bool; 2],
+}
+fn gen_scenario(r: &mut Rng, pure: bool) -> Scenario {
+	let ibs = if pure { 1 } else { *r.pick(&[1usize, 2, 3, 4, 8]) };
+	let ncb = r.range(5, 10) as usize;
+	let mut g = GenState { next_id: 0, next_sid: 0, tracks: BTreeMap::new(), sounds: vec![], clock_alive: [true, true] };
+	let mut cbs = vec![];
+	let max_tracks = if pure { 3 } else { 4 };
+	let max_sounds = if pure { 1 } else { 4 };
+	for k in 0..ncb {
+		let mut ops = vec![];
+		let nops = if k == 0 { r.range(2, 4) } else { r.range(0, 2) };
+		for _ in 0..nops {
+			let live: Vec<usize> = g.tracks.iter().filter(|(_, v)| v.1).map(|(i, _)| *i).collect();
+			let choice = r.below(20);
+			if (g.tracks.is_empty() || (choice == 0 && !pure)) && g.next_id < max_tracks {
+				let id = g.next_id;
+				g.next_id += 1;
+				g.tracks.insert(id, (1, true));
+				ops.push(Op::AddTop { id, persist: r.chance(1, 3), fx: !pure && r.chance(1, 4), spatial: r.chance(1, 5) });
+				continue;
+			}
+			if live.is_empty() {
+				continue;
+			}
+			let tr = *r.pick(&live);
+			match choice {
+				1 | 2 | 3 if g.next_id < max_tracks && g.tracks[&tr].0 < 3 => {
+					let id = g.next_id;
+					g.next_id += 1;
+					g.tracks.insert(id, (g.tracks[&tr].0 + 1, true));
+					ops.push(Op::AddSub { parent: tr, id, persist: r.chance(1, 3), fx: !pure && r.chance(1, 4), spatial: r.chance(1, 5) });
+				}
+				4 | 5 | 6 | 7 if g.next_sid < max_sounds => {
+					let sid = g.next_sid;
+					g.next_sid += 1;
+					let n = if pure { r.range(20, 60) as usize } else { r.range(3, 40) as usize };
+					let start = if !pure && r.chance(1, 5) { r.below(n as u64) as usize } else { 0 };
+					let st = if !pure && r.chance(1, 4) { gen_start(r) } else { Start::Imm };
+					g.sounds.push((sid, true));
+					// in the pure family the sound goes to the deepest live track
+					let tr = if pure { *live.iter().max_by_key(|t| g.tracks[t].0).unwrap() } else { tr };
+					ops.push(Op::Play { tr, sid, n, start, st });
+				}
+				8 | 9 | 10 => ops.push(Op::Pause { tr, tw: if pure { zero_tw() } else { gen_tw(r, true) } }),
+				11 | 12 => ops.push(Op::Resume { tr, st: Start::Imm, tw: if pure { zero_tw() } else { gen_tw(r, false) } }),
+				13 | 14 => ops.push(Op::Resume { tr, st: if pure { r.pick(&[Start::Del(FRAME_NS_X2), Start::Del(3 * FRAME_NS_X2), Start::Clk { clock: 0, ticks: 0, fr: 0.0 }]).clone() } else { gen_start(r) }, tw: if pure { zero_tw() } else { gen_tw(r, false) } }),
+				15 if !pure => ops.push(Op::Volume { tr, db: *r.pick(&[0.0f32, -6.0, -12.0, -60.0, 3.0]), tw: gen_tw(r, true) }),
+				16 | 17 if !pure || r.chance(1, 3) => {
+					g.tracks.get_mut(&tr).unwrap().1 = false;
+					ops.push(Op::Drop { tr });
+				}
+				18 if !pure => {
+					if let Some(x) = g.sounds.iter_mut().find(|x| x.1) {
+						x.1 = false;
+						ops.push(Op::DropSound { sid: x.0 });
+					}
+				}
+				_ => {
+					let c = r.below(2) as usize;
+					if g.clock_alive[c] {
+						match r.below(4) {
+							0 | 1 => ops.push(Op::ClockStart(c)),
+							2 => ops.push(Op::ClockPause(c)),
+							_ => {
+								g.clock_alive[c] = false;
+								ops.push(Op::ClockDrop(c));
+							}
+						}
+					}
+				}
+			}
+		}
+		let frames = *r.pick(&[1usize, 2, 3, 4, 5, 8]);
+		cbs.push(Cb { ops, frames });
+	}
+	Scenario { ibs, cbs }
+}
+
+/// fixed histories: the F1 and F28 regressions and the minimal frozen / removal scenes
+fn fixed_scenarios() -> Vec<(&'static str, Scenario, bool)> {
+	let z = zero_tw;
+	let top = |id, persist| Op::AddTop { id, persist, fx: false, spatial: false };
+	let sub = |parent, id, persist| Op::AddSub { parent, id, persist, fx: false, spatial: false };
+	let play = |tr, sid, n| Op::Play { tr, sid, n, start: 0, st: Start::Imm };
+	let cb = |ops: Vec<Op>, frames| Cb { ops, frames };
+	vec![
+		(
+			"F1 regression: pause; resume_at(ClockTime c); clock c dropped",
+			Scenario {
+				ibs: 4,
+				cbs: vec![
+					cb(vec![top(0, false), play(0, 0, 30)], 4),
+					cb(vec![Op::Pause { tr: 0, tw: z() }], 4),
+					cb(vec![Op::Resume { tr: 0, st: Start::Clk { clock: 0, ticks: 1, fr: 0.0 }, tw: z() }], 4),
+					cb(vec![Op::ClockDrop(0)], 4),
+					cb(vec![], 4),
+					cb(vec![Op::Resume { tr: 0, st: Start::Imm, tw: z() }], 4),
+					cb(vec![], 4),
+				],
+			},
+			false,
+		),
+		(
+			"F28 regression (a): persisting track, sound played and handle dropped between two callbacks",
+			Scenario { ibs: 8, cbs: vec![cb(vec![top(0, true)], 4), cb(vec![play(0, 0, 10), Op::Drop { tr: 0 }], 4), cb(vec![], 4), cb(vec![], 4), cb(vec![], 4), cb(vec![], 4), cb(vec![], 4)] },
+			false,
+		),
+		(
+			"F28 regression (b): child added and parent handle dropped between two callbacks",
+			Scenario { ibs: 8, cbs: vec![cb(vec![top(0, false)], 4), cb(vec![sub(0, 1, false), play(1, 0, 10), Op::Drop { tr: 0 }], 4), cb(vec![], 4), cb(vec![], 4), cb(vec![Op::Drop { tr: 1 }], 4), cb(vec![], 4), cb(vec![], 4)] },
+			false,
+		),
+		(
+			"queued track dropped at once: plays one callback, removed at the one after",
+			Scenario { ibs: 8, cbs: vec![cb(vec![top(0, false), play(0, 0, 20), Op::Drop { tr: 0 }], 4), cb(vec![], 4), cb(vec![], 4)] },
+			false,
+		),
+		(
+			"three-node chain, pause the root with a zero fade, resume after three callbacks",
+			Scenario {
+				ibs: 1,
+				cbs: vec![
+					cb(vec![top(0, false), sub(0, 1, false), sub(1, 2, false), play(2, 0, 40)], 3),
+					cb(vec![], 5),
+					cb(vec![Op::Pause { tr: 0, tw: z() }], 4),
+					cb(vec![], 2),
+					cb(vec![], 8),
+					cb(vec![Op::Resume { tr: 0, st: Start::Imm, tw: z() }], 3),
+					cb(vec![Op::Pause { tr: 1, tw: z() }], 3),
+					cb(vec![Op::Resume { tr: 1, st: Start::Del(3 * FRAME_NS_X2), tw: z() }], 4),
+					cb(vec![], 8),
+					cb(vec![], 8),
+				],
+			},
+			true,
+		),
+	]
+}
+
+fn key_of(t: &str) -> String {
+	let mut h = 1469598103934665603u64;
+	for b in t.bytes() {
+		h = (h ^ b as u64).wrapping_mul(1099511628211);
+	}
+	format!("{h:x}")
+}
+
+pub fn run(args: &Args) {
+	let mut rng = Rng::new(args.seed ^ 0xC12);
+	let n: u64 = (if args.thorough { 6_000 } else { 600 }) * args.budget_mul;
+	let mut s = Session::new(
+		"C12",
+		&args.out,
+		"From Coq Require Import ZArith List. Import ListNotations. Open Scope Z_scope.\nFrom KV Require Import Base.Corr C06.Run C03.Run C12.Run.",
+		"run",
+		25,
+		"one case = one real AudioManager (sample rate 1024, internal buffer size 1-8) with a tree of up to 4 sub-tracks of depth <= 3 (plain and spatial handles, persistence on/off, optional counting probe effect), up to 4 index-coded static sounds (start position, start delay immediate/delayed/clock), two real clocks (started, paused, dropped), driven through 5-10 callbacks of 1-8 frames with generated pause / resume / resume_at / set_volume / drop-track / drop-sound operations (fade tweens of 0, sub-frame, frame-multiple and arbitrary length, Linear/Powi easings, immediate/delayed/clock start); observables per callback: manager.num_sub_tracks(), for every live track handle state() (under catch_unwind) / num_sounds() / num_sub_tracks(), for every live sound handle state() / position(), every output frame (bit pattern); distinct = distinct case text; non-trivial = at least one pause/resume/drop operation",
+	);
+	let mut all: Vec<(String, Scenario, bool)> = fixed_scenarios().into_iter().map(|(a, b, c)| (a.to_string(), b, c)).collect();
+	for i in 0..n {
+		let pure = i % 4 == 3;
+		all.push((if pure { "pure".into() } else { "random".into() }, gen_scenario(&mut rng, pure), pure));
+	}
+	for (name, sc, pure) in &all {
+		let tr = run_scenario(sc);
+		let t = term(sc, &tr);
+		let nontrivial = sc.cbs.iter().any(|c| c.ops.iter().any(|o| matches!(o, Op::Pause { .. } | Op::Resume { .. } | Op::Drop { .. })));
+		let kind = if name == "pure" || name == "random" { name.as_str() } else { "fixed" };
+		s.case(kind, t.clone(), &tr.obs, if nontrivial { Some(key_of(&t)) } else { None });
+		for o in &tr.per_cb {
+			for (_, (st, _, _)) in &o.tracks {
+				if let Ok(st) = st {
+					s.count(&format!("track_state_{st:?}"));
+				}
+			}
+		}
+		let desc = format!("{name}: ibs={} {:?}", sc.ibs, sc.cbs);
+		monitors(&mut s, &desc, sc, &tr, *pure);
+	}
+	s.finish();
 }
